@@ -62,7 +62,8 @@ func (m *simpleMidPool) Put(mid int32) {
 	idx := sort.Search(len(m.intervals), func(i int) bool {
 		return m.intervals[i].from >= mid
 	})
-	if idx < len(m.intervals) && (m.intervals[idx].from < mid && m.intervals[idx].to >= mid) {
+	if idx > 0 && m.intervals[idx-1].from < mid && m.intervals[idx-1].to >= mid {
+		// already free
 		return
 	}
 
